@@ -31,6 +31,7 @@ type c11Req struct {
 	basic   int    // 0 none, 1 wrong, 2 right
 	tls     bool
 	badHost bool
+	encoded bool // path is given percent-encoded: let net/url decode it
 }
 
 type c11Env struct {
@@ -165,7 +166,9 @@ func c11Build(q c11Req) *http.Request {
 		r = httptest.NewRequest(q.method, target, struct{ *strings.Reader }{strings.NewReader(body)})
 		r.ContentLength = -1
 	}
-	r.URL.Path = q.path
+	if !q.encoded {
+		r.URL.Path = q.path
+	}
 	if q.ctype != "" {
 		r.Header.Set("Content-Type", q.ctype)
 	}
@@ -377,7 +380,6 @@ func c11MuxProbe(out *vfOut, mux *http.ServeMux, what string, q c11Req, probeRan
 	}
 	rec := httptest.NewRecorder()
 	req := c11Build(q)
-	req.URL.Path = q.path
 	req.RequestURI = q.path
 	panicked := false
 	func() {
@@ -395,7 +397,7 @@ func c11MuxProbe(out *vfOut, mux *http.ServeMux, what string, q c11Req, probeRan
 	} else if !(status == 403 || status == 302 || status == 301 || status == 307 || status == 404) {
 		ran = true
 	}
-	public := c11Public(q.path)
+	public := c11Public(req.URL.Path)
 	monOK, msg, key := true, "", ""
 	if ran && !public {
 		monOK, key = false, "c11-route-unguarded:"+q.path
@@ -609,16 +611,21 @@ func TestVerifC11(t *testing.T) {
 		p := rt.Pattern
 		spell := []string{p, p + "/", "/" + p, strings.Replace(p, "/control/", "/control/../control/", 1), strings.Replace(p, "/control/", "/control//", 1),
 			strings.Replace(p, "/control/", "/assets/../control/", 1), "/login.html/.." + p, strings.ToUpper(p), strings.Replace(p, "/control/", "/control/./", 1),
-			"/assets/" + strings.TrimPrefix(p, "/")}
+			"/assets/" + strings.TrimPrefix(p, "/"),
+			"%" + strings.Replace(p, "/control/", "/control%2f", 1), "%/%2e%2e" + p, "%" + strings.Replace(p, "/control/", "/assets/%2e%2e/control/", 1),
+			"%" + strings.Replace(p, "/control/", "/assets%2f..%2fcontrol%2f", 1), "%" + strings.Replace(p, "/control/", "/login.html%2f..%2fcontrol/", 1)}
 		k := len(spell)
 		if !out.Thorough() {
-			k = 3
+			k = 4
 			vfShuffle(rnd, spell[1:])
 		}
 		for _, sp := range spell[:k] {
 			nc := noCred[rnd.Intn(len(noCred))]
 			q := nc
 			q.method, q.path = rt.Method, sp
+			if strings.HasPrefix(sp, "%") {
+				q.path, q.encoded = sp[1:], true
+			}
 			if q.method != "GET" {
 				q.ctype, q.body = "application/json", 1
 			}
